@@ -8,6 +8,7 @@ naming the file and the AST node, which the check reports as a broken obligation
 Usage:  translate.py [--repo DIR] [--out DIR] [names...]
 """
 import ast
+import copy
 import os
 import sys
 from fractions import Fraction
@@ -78,6 +79,41 @@ class PyTr:
     def __init__(self, file, lits, enums, store_attr):
         self.file, self.lits, self.enums, self.store_attr = file, lits, enums, store_attr
         self.procs = {}  # property / method name -> Gallina name of translated procedure
+        self.helpers = {}  # private method name (as written, e.g. __is_positive_int) -> FunctionDef, inlined at its calls
+        self.depth = 0
+
+    # -- private helper methods are inlined at their call sites (parameters replaced by the argument expressions) ----
+    def helper_call(self, node):
+        """(FunctionDef, {param: argument ast}) when [node] is self.<private helper>(args) / ClassName.<helper>(args)"""
+        if isinstance(node, ast.Call) and isinstance(node.func, ast.Attribute) and isinstance(node.func.value, ast.Name) \
+                and node.func.attr in self.helpers and not node.keywords:
+            fn = self.helpers[node.func.attr]
+            params = [a.arg for a in fn.args.args]
+            static = any(ast.unparse(d) == "staticmethod" for d in fn.decorator_list)
+            if not static:
+                if node.func.value.id != "self" or not params:
+                    self.err(node, "helper call receiver")
+                params = params[1:]
+            if len(params) != len(node.args) or fn.args.vararg or fn.args.kwarg or fn.args.kwonlyargs or fn.args.defaults:
+                self.err(node, "helper call arity")
+            if any(not isinstance(a, (ast.Name, ast.Constant, ast.Attribute)) for a in node.args):
+                self.err(node, "helper call argument (names and constants only)")
+            return fn, dict(zip(params, node.args))
+        return None
+
+    def subst(self, nodes, mapping):
+        class S(ast.NodeTransformer):
+            def visit_Name(self, n):
+                return copy.deepcopy(mapping[n.id]) if n.id in mapping and isinstance(n.ctx, ast.Load) else n
+        stores = [n.id for b in nodes for n in ast.walk(b) if isinstance(n, ast.Name) and isinstance(n.ctx, ast.Store)]
+        if any(x in mapping for x in stores):
+            self.err(nodes[0], "helper assigns to its parameter")
+        return [S().visit(copy.deepcopy(b)) for b in nodes]
+
+    def inline_guard(self, node):
+        self.depth += 1
+        if self.depth > 6:
+            self.err(node, "helper inlining too deep (recursion?)")
 
     def err(self, node, msg):
         raise TranslateError(self.file, node, msg)
@@ -176,6 +212,17 @@ class PyTr:
                 term = "(e_in {} [{}])".format(left, "; ".join(self.const_pv(e) for e in right.elts))
                 return term if isinstance(op, ast.In) else "(e_not {})".format(term)
             self.err(node, "comparison")
+        hc = self.helper_call(node)
+        if hc:
+            fn, mapping = hc
+            body = strip_doc(fn.body)
+            if len(body) != 1 or not isinstance(body[0], ast.Return) or body[0].value is None:
+                self.err(node, "helper used in an expression must be a single return")
+            self.inline_guard(node)
+            try:
+                return self.expr(self.subst([body[0].value], mapping)[0], env)
+            finally:
+                self.depth -= 1
         if isinstance(node, ast.Call) and isinstance(node.func, ast.Name) and not node.keywords:
             f, args = node.func.id, node.args
             if f == "isinstance" and len(args) == 2:
@@ -229,6 +276,37 @@ class PyTr:
             if isinstance(tgt, ast.Attribute) and isinstance(tgt.value, ast.Name) and tgt.value.id == "self" \
                     and tgt.attr in self.procs:
                 return "(s_call {} (fun s => {}))".format(self.procs[tgt.attr], self.expr(node.value, env))
+        if isinstance(node, ast.Expr) and self.helper_call(node.value):
+            fn, mapping = self.helper_call(node.value)
+            if any(isinstance(n, ast.Return) for b in fn.body for n in ast.walk(b)):
+                self.err(node, "helper used as a statement must not return")
+            self.inline_guard(node)
+            try:
+                return self.stmts(self.subst(strip_doc(fn.body), mapping), env)
+            finally:
+                self.depth -= 1
+        if isinstance(node, ast.Expr) and isinstance(node.value, ast.Call) and isinstance(node.value.func, ast.Attribute) \
+                and node.value.func.attr == "update" and len(node.value.args) == 1 and not node.value.keywords \
+                and isinstance(node.value.args[0], ast.Dict):
+            # <store>[...].update({k: v, ...}) with a literal dictionary = the item assignments in the order written
+            base = node.value.func.value
+            prefix = self.key_of(ast.Subscript(value=base, slice=ast.Constant("@")))
+            if prefix is None:
+                self.err(node, "update target")
+            prefix = prefix[:-1]          # "a.b.@" -> "a.b."   ("@" -> "")
+            d = node.value.args[0]
+            terms = []
+            for k, v in zip(d.keys, d.values):
+                if k is None or isinstance(v, ast.Dict):
+                    self.err(node, "update entry")
+                key = self.key_of(ast.Subscript(value=base, slice=k))
+                terms.append("(s_assign {} (fun s => {}))".format(coq_string(key), self.expr(v, env)))
+            if not terms:
+                return "s_skip"
+            out = terms[-1]
+            for t in reversed(terms[:-1]):
+                out = "(s_seq {} {})".format(t, out)
+            return out
         self.err(node, "statement " + type(node).__name__)
 
 
@@ -292,7 +370,19 @@ def gen_settings(repo):
 
     getters, api = [], []
     seen_init = False
+    public_calls = set()
+    for node in ast.walk(tree):
+        if isinstance(node, ast.Attribute) and isinstance(node.value, ast.Call) and ast.unparse(node.value) == "get_settings()":
+            public_calls.add(node.attr)
     for node in strip_doc(settings_cls.body):
+        # private methods (not reachable through get_settings().<name>) that are not properties are helpers: inlined
+        if isinstance(node, ast.FunctionDef) and node.name.startswith("_") and not node.name.endswith("__") \
+                and node.name not in public_calls \
+                and all(ast.unparse(d) == "staticmethod" for d in node.decorator_list):
+            tr.helpers[node.name] = node
+    for node in strip_doc(settings_cls.body):
+        if isinstance(node, ast.FunctionDef) and node.name in tr.helpers:
+            continue
         if isinstance(node, ast.Assign):
             continue  # __instance = None
         if not isinstance(node, ast.FunctionDef):
@@ -416,7 +506,7 @@ def _wrapper_shape(file, node):
         return isinstance(st, ast.Assign) and len(st.targets) == 1 and isinstance(st.targets[0], ast.Name) \
             and ast.unparse(st.value) == "{}(*args)".format(func_arg)
 
-    if len(body) < 4 or not is_save(body[0]) or not is_set(body[1], size_arg[0]):
+    if len(body) < 3 or not is_save(body[0]) or not is_set(body[1], size_arg[0]):
         terr(inner, "prologue")
     temp = body[0].targets[0].id
     last = body[-1]
@@ -428,6 +518,11 @@ def _wrapper_shape(file, node):
             and is_set(body[2].finalbody[0], temp) and isinstance(last, ast.Return) \
             and ast.unparse(last.value) == body[2].body[0].targets[0].id:
         return "finally"
+    if len(body) == 3 and isinstance(body[2], ast.Try) and not body[2].handlers and not body[2].orelse \
+            and len(body[2].body) == 1 and isinstance(body[2].body[0], ast.Return) \
+            and ast.unparse(body[2].body[0].value) == "{}(*args)".format(func_arg) and len(body[2].finalbody) == 1 \
+            and is_set(body[2].finalbody[0], temp):
+        return "finally"          # try: return func(*args)  finally: restore   (same control flow)
     terr(inner, "body shape")
 
 
